@@ -158,24 +158,6 @@ def _scan_state_type(ctx):
     return kw.get("data_type"), topo, spec
 
 
-def rule_sd3(ctx: Ctx) -> RuleResult:
-    """SD-3: the state in which the multiplexed scan keeps the accumulator of a key can hold whatever the accumulator returns, as
-    the closure variable of the plain scan can: it is declared as an object state, not as a typed array chosen from the seed (the
-    type of the seed says nothing about the values folded later: seed 0 with float items, seed False with a counter, ...)."""
-    r = RuleResult("SD-3", "the multiplexed scan keeps its accumulator in an object state (data_type 'obj'), not in a typed array derived from the seed")
-    dt, topo, spec = _scan_state_type(ctx)
-    r.instances += 1
-    r.paths += 1
-    ok = dt == ("const", "obj")
-    r.ob(ok, lambda: Finding(
-        "SD-3", "%s::scan_mux{state-type}" % SCAN_REL, topo.where(),
-        "the accumulator state is declared with data_type %s: an int seed gives array('q'), a float seed array('d'), a bool seed array('B'), so an "
-        "accumulator that returns another kind of value (seed 0 folded over floats, a count from seed False, an int beyond 64 bits) raises or is "
-        "silently truncated on a MuxObservable, while the same scan on an Observable works" % (show(dt) if dt is not None else None)))
-    r.require_instances(1)
-    return r
-
-
 def rule_sd2(ctx: Ctx) -> RuleResult:
     """SD-2: the multiplexed scan keeps the accumulator of each key in a container chosen from type(seed): an int seed
     means array('q'), a bool seed array('B').  The plain scan has no such restriction, so an aggregate whose accumulator can
@@ -705,4 +687,4 @@ def _literal_seed(node):
     return None
 
 
-RULES = [rule_sd1, rule_sd2, rule_sd3, rule_sc1, rule_sc2, rule_pu1]
+RULES = [rule_sd1, rule_sd2, rule_sc1, rule_sc2, rule_pu1]
